@@ -105,7 +105,8 @@ PropsOf(e, pre, post) ==
 
 ---------------------------------------------------------------------------
 (* SQL queries over $_keyspace (C19) and view queries (C12) of one collection *)
-AuxKinds == {"q-all", "q-v", "q-s", "view", "viewdesc", "viewlimit", "viewkey", "viewcount", "ddoc"}
+AuxKinds == {"q-all", "q-v", "q-s", "q-null", "view", "viewdesc", "viewlimit", "viewkey", "viewcount", "ddoc",
+             "viewxend", "viewiend", "viewfrom", "viewxenddesc", "viewfromdesc"}
 RowOf(r) == [id |-> r.id, body |-> B(r.body), xa |-> XaOf(r.xa), vals |-> r.vals]
 RowsOf(s) == IF Len(s) = 0 THEN <<>> ELSE [i \in 1..Len(s) |-> RowOf(s[i])]
 TokRank(t) == CASE t = "-" -> 0 [] t = "J1" -> 1 [] t = "J2" -> 2 [] t = "J3" -> 3 [] t = "x1" -> 1 [] t = "x2" -> 2 [] OTHER -> 9
@@ -130,6 +131,9 @@ ViewSeqV(ds, variant) ==
     ELSE IF S = {} THEN <<>> ELSE LET k == CHOOSE x \in S : TRUE IN <<VRow(k, ds[k])>>
 Rev(s) == IF Len(s) = 0 THEN <<>> ELSE [i \in 1..Len(s) |-> s[Len(s) + 1 - i]]
 SelSeq(s, P(_)) == SelectSeq(s, P)
+(* position of a view row relative to the key [tag, "J1", null] in JSON collation *)
+CmpPivot(r) == IF TokRank(r.vals[1]) < 1 THEN 0 - 1 ELSE IF TokRank(r.vals[1]) > 1 THEN 1
+               ELSE IF TokRank(r.vals[2]) = 0 THEN 0 ELSE 1
 ExpectedAuxV(kind, ds, variant) ==
     LET ViewSeq(x) == ViewSeqV(x, variant) IN
     CASE kind = "q-all" -> LET ks == KeySeq({k \in Keys : HasBody(ds[k])}) IN
@@ -138,7 +142,16 @@ ExpectedAuxV(kind, ds, variant) ==
                          IF ks = <<>> THEN <<>> ELSE [i \in 1..Len(ks) |-> IdRow(ks[i])]
       [] kind = "q-s" -> LET ks == KeySeq({k \in Keys : HasBody(ds[k]) /\ ds[k].xa["_s"].t = "x1"}) IN
                          IF ks = <<>> THEN <<>> ELSE [i \in 1..Len(ks) |-> IdRow(ks[i])]
+      [] kind = "q-null" -> LET ks == KeySeq({k \in Keys : HasBody(ds[k])}) IN
+                            IF ks = <<>> THEN <<>>
+                            ELSE [i \in 1..Len(ks) |-> [id |-> ks[i], body |-> NoBody, xa |-> NoXa, vals |-> <<ds[ks[i]].xa["_s"].t>>]]
       [] kind \in {"view", "viewfresh", "viewlate"} -> ViewSeq(ds)
+      \* ranges with one end exactly on the emitted key [tag, "J1", null]
+      [] kind = "viewxend" -> SelSeq(ViewSeq(ds), LAMBDA r : CmpPivot(r) < 0)
+      [] kind = "viewiend" -> SelSeq(ViewSeq(ds), LAMBDA r : CmpPivot(r) <= 0)
+      [] kind = "viewfrom" -> SelSeq(ViewSeq(ds), LAMBDA r : CmpPivot(r) >= 0)
+      [] kind = "viewxenddesc" -> Rev(SelSeq(ViewSeq(ds), LAMBDA r : CmpPivot(r) > 0))
+      [] kind = "viewfromdesc" -> Rev(SelSeq(ViewSeq(ds), LAMBDA r : CmpPivot(r) <= 0))
       [] kind = "viewdesc" -> Rev(ViewSeq(ds))
       [] kind = "viewlimit" -> IF ViewSeq(ds) = <<>> THEN <<>> ELSE <<ViewSeq(ds)[1]>>
       [] kind = "viewkey" -> SelSeq(ViewSeq(ds), LAMBDA r : r.vals[1] = "J1" /\ r.vals[2] = "-")
